@@ -138,7 +138,8 @@ class C13(Machine):
         return {'config': config, 'ops': ops}
 
     def _gen_op(self, rng):
-        k = rng.choice(['set_nf', 'set_re', 'set_std', 'add_noise',
+        k = rng.choice(['set_invalid', 'simcopy', 'set_nf', 'set_re',
+                        'set_std', 'add_noise',
                         'add_noise', 'add_noise', 'select', 'select', 'copy',
                         'dict', 'file', 'restart', 'misfit', 'permute'])
         op = {'op': k, 't': rng.randrange(8)}
@@ -150,6 +151,13 @@ class C13(Machine):
             op['spec'] = rng.choice([
                 {'kind': 'none'}, {'kind': 'full', 'base': 2e-14,
                                    'seed': rng.randint(0, 10**6)}])
+        elif k == 'set_invalid':
+            op['which'] = rng.choice(['noise_floor', 'relative_error',
+                                      'standard_deviation'])
+            op['bad'] = rng.choice([0.0, -1e-15])
+            op['seed'] = rng.randint(0, 10**6)
+        elif k == 'simcopy':
+            op['what'] = rng.choice(['computed', 'results', 'all', 'plain'])
         elif k == 'add_noise':
             op.update(
                 ntype=rng.choice(['white_noise', 'gaussian_correlated',
@@ -323,6 +331,43 @@ class C13(Machine):
             else:
                 ref.std = None if val is None else np.array(val)
             ctx.event(k, op['spec']['kind'])
+        elif k == 'set_invalid':
+            # a refused assignment (a value <= 0) must raise and must leave
+            # everything as it was (checked by the global invariant)
+            g = np.random.default_rng(op['seed'])
+            val = 1e-14 * 10 ** g.uniform(-1, 1, shape)
+            val.flat[int(g.integers(val.size))] = op['bad']
+            try:
+                setattr(sv, op['which'], val)
+                raised = False
+            except ValueError:
+                raised = True
+            if not raised:
+                raise Violation('assignment_rejected',
+                                f"assigning a {op['which']} array with the "
+                                f"entry {op['bad']} was accepted",
+                                quantity=op['which'], op=k)
+            ctx.stats.probe('refused_assignment')
+            ctx.event(k, op['which'])
+        elif k == 'simcopy':
+            # a Simulation built on the survey, copied: the copy's survey
+            # carries the same settings and data
+            sim = self._simulate(sv)
+            new = sim.copy(op['what'])
+            nref = ref.copy()
+            for name in ('synthetic', 'residual', 'weights'):
+                if op['what'] == 'plain':
+                    nref.data.pop(name, None)
+            # the constructor adds (NaN) synthetic data to the survey it got
+            ref.data['synthetic'] = sv.data['synthetic'].data.copy()
+            nref.data['synthetic'] = new.survey.data['synthetic'].data.copy()
+            if op['what'] != 'plain' and ahash(nref.data['synthetic']) != \
+                    ahash(ref.data['synthetic']):
+                raise Violation('setting_changed', 'synthetic data of a '
+                                f"copy(what={op['what']!r}) differ",
+                                quantity='data:synthetic', op=k)
+            live.append([new.survey, nref])
+            ctx.event(k, op['what'])
         elif k == 'add_noise':
             self._add_noise(ctx, sv, ref, op)
         elif k == 'select':
